@@ -12,7 +12,7 @@ META = {
 }
 
 KINDS = ["pass", "pass_print", "fail_assert", "fail_assert_print", "fail_index", "fail_div", "comp_bal", "pass_bare",
-         "pass_nested", "fail_nested"]
+         "pass_nested", "fail_nested", "comp_paren", "comp_bracket", "comp_directive", "fail_undefined"]
 UNBAL = ["comp_open", "comp_close"]
 
 
@@ -29,6 +29,10 @@ def body(kind, i):
         "pass_bare": "@assert 2 == 2",
         "pass_nested": "{\n  if true {\n    for k := 0; k < 2; k = k + 1 {\n      @assert k < 2\n    }\n  }\n}",
         "fail_nested": "{\n  if true {\n    %s\n    if 1 == 1 {\n      @assert false\n    }\n  }\n}" % p,
+        "comp_paren": "{\n  x := (1 + 2\n}",
+        "comp_bracket": "{\n  a := []int{1,2}\n  b := a[1\n}",
+        "comp_directive": "{\n  @compile block unknown=true {\n    q := 1\n    @assert q == 1\n  } catch (e) {\n    pring \"typo, not a statement\"\n  }\n}",
+        "fail_undefined": "{\n  @assert neverDefinedAnywhere%d == 1\n}" % i,
         "comp_open": "{\n  if true {\n  @assert true\n}",
         "comp_close": "{\n  @assert true\n}\n}",
     }
@@ -42,7 +46,7 @@ def outcome(kind, i):
         return "Pass []", True
     if kind == "pass_print":
         return "Pass %s" % pr, True
-    if kind in ("fail_assert", "fail_index", "fail_div"):
+    if kind in ("fail_assert", "fail_index", "fail_div", "fail_undefined"):
         return "RunFail []", False
     if kind in ("fail_assert_print", "fail_nested"):
         return "RunFail %s" % pr, False
@@ -117,7 +121,8 @@ def run(ck):
         files = [rp["kinds"]] if "kinds" in rp else []
     corpus = [["pass", "fail_assert", "pass"], ["fail_index", "pass_print"], ["comp_bal", "fail_div", "pass"],
               ["fail_assert_print", "fail_assert_print", "pass_print"], ["pass", "comp_open", "pass", "fail_assert"],
-              ["comp_close", "pass"], ["pass_bare", "fail_nested", "pass_bare", "pass_nested"]]
+              ["comp_close", "pass"], ["pass_bare", "fail_nested", "pass_bare", "pass_nested"],
+              ["pass", "comp_directive", "fail_undefined", "pass"], ["comp_paren", "pass", "comp_bracket", "pass_print", "fail_undefined", "pass"]]
     if not files:
         files = list(corpus)
         while len(files) < nfiles:
